@@ -75,7 +75,9 @@ def run(ctx):
     if "gen" not in driven:
         raise Inconclusive("capnpc-go failed on the generated request (C15 decides that): " + results["gen"]["stderr"][-300:])
     summ2, sd2, tf2 = lp.drive(ctx, "text", overlay, srcs, driven, trace="texttrace.ndjson")
+    ctx.log("layoutdrv text: %s" % {k: summ2[k] for k in summ2 if k != "counts"})
     rt2 = tlc.run(ctx, sd2, "TextTrace", cfg="TextTrace.cfg", workers=1, timeout=3400, heap="12g", stack=True)
+    ctx.log("TextTrace (generated schemas): %d states" % rt2.distinct)
     cons = rt2.tagged("CONSUMED")
     if not cons or cons[0]["n"] != summ2["lines"]:
         raise Inconclusive("TextTrace consumed %s of %d lines (generated schemas)" % (cons, summ2["lines"]))
